@@ -8,9 +8,9 @@ for d in sorted(glob.glob('/verif/seeded/*/meta.json')):
     notes = re.sub(r'\s+', ' ', notes.replace('|', '/'))[:420]
     caught = ['%s (%s)' % (c, ', '.join(r['violated_clauses'][:3])) for c, r in sorted(m['checks_run'].items()) if r['caught']]
     missed = [c for c, r in sorted(m['checks_run'].items()) if not r['caught']]
-    rows.append('| %s | %s | %s | %s | %s |' % (name, 'yes' if m['confirmed']['all_confirmed'] else 'NO', notes, '; '.join(caught) or '-', ', '.join(missed) or '-'))
+    rows.append('| %s | %s | %s | %s | %s |' % (name, ('OBSOLETE (no longer breaks the property: ' + m['obsolete']['reason'][:90] + '...)') if m.get('obsolete') else ('yes' if m['confirmed']['all_confirmed'] else 'NO'), notes, '; '.join(caught) or '-', ', '.join(missed) or '-'))
 out = ['# Independently seeded changes', '',
-       'Wave 1 = variants A, B; wave 2 = variants C, D (authors were told the wave-1 ideas and asked for different mechanisms).',
+       'Wave 1 = variants A, B; wave 2 = variants C, D; wave 3 = variants E, F (authors of later waves were told the earlier ideas and asked for different mechanisms).',
        'Each was confirmed with tools/import_seeded.py (demo passes without, patch applies, 63 baseline tests pass with it, demo fails with it).',
        '"not caught by" lists checks of OTHER properties that were also run against the change and do not see it (by design of their scope).', '',
        '| change | confirmed | what was changed / what it needs (author\'s notes, truncated) | caught by (violated clauses) | also run, not caught by |',
@@ -21,5 +21,5 @@ n = len(rows)
 print(n, 'changes indexed')
 for d in sorted(glob.glob('/verif/seeded/*/meta.json')):
     m = json.load(open(d)); name = os.path.basename(os.path.dirname(d)); pid = m['property']
-    if not m['checks_run'].get(pid, {}).get('caught'):
+    if not m['checks_run'].get(pid, {}).get('caught') and not m.get('obsolete'):
         print('NOT CAUGHT BY OWN CHECK:', name)
